@@ -5,3 +5,4 @@ import UnifexModel.Driver.Registry
 import UnifexModel.Props.C01
 import UnifexModel.Props.C03
 import UnifexModel.Props.C05
+import UnifexModel.Props.C13
